@@ -49,6 +49,9 @@ from odml.tools.odmlparser import ODMLReader                   # noqa: E402
 from odml.tools.parser_utils import ParserException, InvalidVersionException   # noqa: E402
 
 WORK = os.path.join(h.WORK, 'c16')
+# the generator's own YAML (de)serialisation: libyaml when available (same resolver/constructor, only faster)
+_YDUMPER = getattr(yaml, 'CSafeDumper', yaml.SafeDumper)
+_YLOADER = getattr(yaml, 'CSafeLoader', yaml.SafeLoader)
 CURRENT = '1.1'                 # the format version this library reads (written down, not imported)
 TIMEOUT_S = 20
 
@@ -559,6 +562,24 @@ def _xml_systematic(tier):
     }
     for label, (text, wf) in around.items():
         yield _xcase(text, 'prolog-epilog', label, wf=wf)
+    # F8: dependencies (resolved by the validation pass that ODMLReader / odml.load run after parsing)
+    dep_cases = {
+        'dependency names a subsection': ('s2', 'v', None),
+        'dependency names the property itself': ('p1', 'x', None),
+        'dependency names a sibling property without values': ('p1b', 'v', N('property', kids=[N('name', 'p1b')])),
+        'dependency names a sibling property, value matches': ('p1b', 'w', N('property', kids=[N('name', 'p1b'), N('value', 'w')])),
+        'dependency names a sibling property, value differs': ('p1b', 'v', N('property', kids=[N('name', 'p1b'), N('value', '[1,2]'), N('type', 'int')])),
+        'dependency names nothing': ('nowhere', 'v', None),
+        'dependency value without dependency': (None, 'v', None),
+    }
+    for label, (dep, depval, sibling) in dep_cases.items():
+        root, sec, prop = _base_tree()
+        if dep is not None:
+            prop.kids.append(N('dependency', dep))
+        prop.kids.append(N('dependencyvalue', depval))
+        if sibling is not None:
+            sec.kids.insert(3, sibling)
+        yield _xcase(_ser(root), 'dependency', label, wf=True, keep=BASE_PATHS)
     # F7: root element variants
     for rt in ['odml', 'ODML', 'OdML', 'odML ', 'section', 'property', 'Document', 'a']:
         yield _xcase('<%s version="1.1"><author>me</author></%s>' % (rt, rt.strip()), 'root-tag', rt, wf=True)
@@ -766,6 +787,7 @@ def _xml_mutations(tier, seed, rnd):
     docs = [d for d in docs if len(h.walk(d)[0]) >= 2]
     rnd.shuffle(docs)
     docs = docs[:3 if tier == 'quick' else 12]
+    budget_used = 0
     for di, doc in enumerate(docs):
         with _silence():
             text = str(odml.tools.xmlparser.XMLWriter(doc))
@@ -777,6 +799,10 @@ def _xml_mutations(tier, seed, rnd):
         yield _xcase(_ser(root0), 'valid-file', 'generated valid file %d, unchanged' % di, wf=True, keep=all_paths,
                      witness={'gen_doc': di, 'seed': seed, 'mutation': None})
         n_nodes = len(_all_nodes(root0))
+        if tier == 'quick':
+            # bounded wall time: at most 90 mutated nodes over all files (documents differ in size per seed)
+            n_nodes = min(n_nodes, max(0, 90 - budget_used))
+            budget_used += n_nodes
         for idx in range(n_nodes):
             def fresh():
                 r = root0.copy()
@@ -1012,13 +1038,16 @@ def _short(v):
     return r if len(r) <= 24 else r[:24] + '..'
 
 
-def _dict_systematic():
+def _dict_systematic(tier='thorough'):
     keys_of = {'Document': D_DOC_KEYS, 'Section': D_SEC_KEYS, 'Property': D_PROP_KEYS}
     yield _dcase(_d_base(), 'valid', 'base dictionary unchanged', keep=D_BASE_PATHS)
     for slot, (get, level, inside) in D_SLOTS.items():
         outside = D_BASE_PATHS - inside
         for key in keys_of[level] + D_ALIAS[level]:
-            for v in WRONG + _d_pool(key):
+            pool = WRONG + _d_pool(key)
+            if tier == 'quick' and key in D_ALIAS[level]:
+                pool = WRONG[:10] + _d_pool(key)[:6]
+            for v in pool:
                 d = _d_base()
                 get(d)[key] = copy.deepcopy(v)
                 container_key = key in ('sections', 'section', 'properties', 'property')
@@ -1091,6 +1120,22 @@ def _dict_systematic():
         d = _d_base()
         fn(d)
         yield _dcase(d, 'duplicate', label)
+    # dependencies (resolved by the validation pass that ODMLReader runs after parsing)
+    deps = {
+        'dependency names a subsection': ('s2', 'v', None),
+        'dependency names the property itself': ('p1', 'x', None),
+        'dependency names a sibling property without values': ('p1b', 'v', {'name': 'p1b'}),
+        'dependency names a sibling property, value matches': ('p1b', 'w', {'name': 'p1b', 'value': ['w']}),
+        'dependency names a sibling property, value differs': ('p1b', 'v', {'name': 'p1b', 'value': [1, 2], 'type': 'int'}),
+        'dependency names nothing': ('nowhere', 'v', None),
+    }
+    for label, (dep, depval, sibling) in deps.items():
+        d = _d_base()
+        sec = d['Document']['sections'][0]
+        sec['properties'][0].update(dependency=dep, dependencyvalue=depval)
+        if sibling is not None:
+            sec['properties'].append(sibling)
+        yield _dcase(d, 'dependency', label, keep=D_BASE_PATHS)
 
 
 def _rand_dict(rnd):
@@ -1176,9 +1221,9 @@ def run_dict(tier, seed):
     chk = _Checker(col, 'C16.dict')
 
     def cases():
-        for c in _dict_systematic():
+        for c in _dict_systematic(tier):
             yield c
-        for _ in range(2500 if tier == 'quick' else 40000):
+        for _ in range(1000 if tier == 'quick' else 40000):
             yield _dcase(_rand_dict(rnd), 'random-dict', 'random dictionary over the odML keys')
 
     try:
@@ -1193,7 +1238,7 @@ def run_dict(tier, seed):
                     except (TypeError, ValueError):
                         jtext = None
                 try:
-                    ytext = yaml.safe_dump(data)
+                    ytext = yaml.dump(data, Dumper=_YDUMPER)
                 except Exception:                # noqa
                     ytext = None
                 # the text forms must denote the same dictionary, otherwise the case facts do not apply to them
@@ -1205,7 +1250,7 @@ def run_dict(tier, seed):
                         jtext = None
                 if ytext is not None:
                     try:
-                        if repr(yaml.safe_load(ytext)) != repr(data):
+                        if repr(yaml.load(ytext, Loader=_YLOADER)) != repr(data):
                             ytext = None
                     except Exception:            # noqa
                         ytext = None
